@@ -345,6 +345,10 @@ std::shared_ptr<IDataFrame> BlockHDF5::createDataFrame(const std::string &name,
 
 shared_ptr<IMultiTag> BlockHDF5::createMultiTag(const std::string &name, const std::string &type,
                                                 const DataArray &positions) {
+    // the positions must belong to this block: refuse before anything is created (the constructor would only notice afterwards)
+    if (!hasEntity({positions.id(), ObjectType::DataArray})) {
+        throw std::runtime_error("BlockHDF5::createMultiTag: positions DataArray not found in block!");
+    }
     string id = util::createId();
     boost::optional<H5Group> g = multi_tag_group(true);
 
